@@ -15,24 +15,23 @@ def handle (op : String) : Option (P String) :=
         | none => "-"
       pure (showRat (totalOn sh s e t N) ++ " " ++ " ".intercalate ivs)
   | "burn.timeline" => some do
-      -- the callbacks of every call, in order, for several burns of one agent: `time=k` burn k's thrust installed, `time=off`
+      -- the callbacks of every call, in order, for several burns of one agent: `time=+k` burn k's thrust installed,
+      -- `time=-k` burn k's end; then the slot at the end of the call
       let bs ← P.list (do let s ← P.rat; let e ← P.rat; pure ((s, e) : BurnIv))
       let ts ← P.list P.rat
       if ts.length < 2 then failure
       let N := ts.length - 1
       let t := fun k => ts.getD k 0
-      let name := fun (v : Option BurnIv) => match v with
-        | none => "off"
-        | some b => match bs.findIdx? (· == b) with
-          | some i => toString i
-          | none => "?"
+      let idx := fun (b : BurnIv) => match bs.findIdx? (· == b) with
+        | some i => toString i
+        | none => "?"
       let calls := (List.range N).map fun k =>
-        let tl := timeline bs (t k) (t (k + 1))
-        let endSlot := match tl.getLast? with
-          | some c => c.val
-          | none => none
-        let items := tl.map fun c => showRat c.time ++ "=" ++ name c.val
-        (if items.isEmpty then "-" else ",".intercalate items) ++ ";end=" ++ name endSlot
+        let tl := prepCallbacks bs (t k) ++ sortedRoots bs (t k) (t (k + 1))
+        let items := tl.map fun c => showRat c.time ++ "=" ++ (if c.on then "+" else "-") ++ idx c.burn
+        let endSlot := match slotEnd bs (t k) (t (k + 1)) with
+          | some b => idx b
+          | none => "off"
+        (if items.isEmpty then "-" else ",".intercalate items) ++ ";end=" ++ endSlot
       pure (" ".intercalate calls)
   | _ => none
 end RV.Drive.Burn
